@@ -242,6 +242,14 @@ func main() {
 		sort.Strings(ps)
 		fmt.Println(strings.Join(ps, " "))
 	default:
+		// sub-commands registered by other files (init functions)
+		if f, ok := extraCommands[os.Args[1]]; ok {
+			os.Exit(f(os.Args[2:]))
+		}
 		os.Exit(2)
 	}
 }
+
+// extraCommands: sub-commands registered from other files; the function gets the
+// arguments after the command name and returns the exit status.
+var extraCommands = map[string]func(args []string) int{}
